@@ -422,6 +422,9 @@ func (l *Lexer) skipComment() {
 
 // Consume all tokens until we've had the close of a multi-line comment
 func (l *Lexer) skipMultiLineComment() {
+	// Move past the "/*" that opens the comment: its "*" does not end it
+	l.readChar()
+	l.readChar()
 	found := false
 	for !found {
 		// break at the end of our input.
